@@ -51,8 +51,8 @@ structure St (α : Type) where
   nin : Nat
   ndin : Nat
   nSites : Nat
-  /-- callee of every user site (`none`: the site belongs to a dropped body) -/
-  userCallee : List (Option BodyId)
+  /-- caller and callee of every user site (`none`: the site belongs to a dropped body) -/
+  userCallee : List (Option (BodyId × BodyId))
 
 def parseBodyS (j : Json) : Except String Body := do
   let b ← CoreProto.parseBody j
@@ -142,11 +142,6 @@ def designEq (a b : Design) : Bool :=
 def showGroups (g : List (List Nat)) : String :=
   if g.isEmpty then "-" else "|".intercalate (g.map showList)
 
-def linkSites (D : Design) (out : Simul.MergeOut) (nus : Nat) : List Nat :=
-  (D.allSites.filterMap fun (src, c) =>
-    if c.site < nus && c.path.path.length == (D.defPath src).path.length + 1 then some c.site else none) ++
-  (out.enDeps.filterMap fun (s, deps) => if deps.isEmpty then some s else none)
-
 def start {α : Type} (ck : Checks α) (cfg : Cfg) : Option (St α) × String :=
   match Simul.simultaneous cfg.pre cfg.nus with
   | .error k => (none, s!"reject kind={k.name}")
@@ -166,7 +161,7 @@ def start {α : Type} (ck : Checks α) (cfg : Cfg) : Option (St α) × String :=
       let vo := validOrder E.g.before D.transactions order
       let hyp := if cfg.full then showBool (ck.staticOk D E order) else "-"
       let pa := ck.prep D E order
-      let L := linkSites D out cfg.nus
+      let L := Simul.linkSites D out.enDeps cfg.nus
       let s12 := cfg.uses.all fun u => ck.shape12 pa u L out.enDeps
       let nbr := cfg.uses.all fun u => !u.priority || ck.nbr pa u
       let s13 := cfg.pairs.all fun (a, b) => ck.shape13 pa a b L
@@ -174,7 +169,7 @@ def start {α : Type} (ck : Checks α) (cfg : Cfg) : Option (St α) × String :=
                                en := cfg.en, args := cfg.args, nus := cfg.nus }
       let ids := List.range n
       let nSites := cfg.nus + out.enDeps.length
-      let userCallee := (List.range cfg.nus).map fun s => (D.allSites.find? (·.2.site == s)).map (·.2.callee)
+      let userCallee := (List.range cfg.nus).map fun s => (D.allSites.find? (·.2.site == s)).map fun p => (p.1, p.2.callee)
       let st : St α :=
         ⟨env, pa, L, ids.filter D.transactions.contains, ids.filter D.methods.contains, exclSitePairs D, exclBodyPairs D,
           cfg.conn, cfg.nin, cfg.ndin, nSites, userCallee⟩
@@ -200,11 +195,14 @@ def evalLine {α : Type} (ck : Checks α) (st : St α) (t : List String) (full :
     let en := sites.map v.en
     let arg := sites.map v.arg
     let rn := st.ts.map (runnable D E v r.run)
-    let din := st.ms.map (dataIn D E v rb)
+    -- data is printed only where the property speaks about it: `data_in` of a running method, the
+    -- result received by a running caller
+    let din := st.ms.map fun m => if rb m then dataIn D E v rb m else 0
     let res := st.userCallee.map fun oc =>
       match oc with
       | none => 0
-      | some m =>
+      | some (src, m) =>
+        if !rb src then 0 else
         match st.conn.find? (fun (w, rd) => w == m || rd == m) with
         | some (w, rd) => if m == rd then Simul.connectReadOut D E v rb w else Simul.connectWriteOut D E v rb rd
         | none => 0
